@@ -53,6 +53,14 @@ def run(tier, out):
         base = seed_from_env() * 100000
         n_models, n_calls = (150, 400) if tier == "quick" else (3000, 6000)
         events, _ = numcheck.random_events(ns, range(base, base + n_models), theorems=["usage"])
+        # the same on systems edited in place by list edits that only change a multiplicity or an order (the same job, step
+        # or device listed once more, steps reversed) and by edits of durations and traffic
+        n_hist = 30 if tier == "quick" else 600
+        edited = numcheck.edited_events(ns, range(base + 60000, base + 60000 + n_hist), 3, theorems=["usage"],
+                                        kinds=("dupjob", "dupstep", "reorder", "dupdev", "dur", "starts"))
+        for e in edited:
+            e["tid"] += 4 * 10 ** 6
+        events += edited
         events += call_events(ns, random.Random(base + 7), n_calls, 10 ** 6)
         fails, _notes, res = numcheck.validate(wd, events, focus=USAGE_KINDS)
         out.add_tlc(res, "Trace_Numeric: usage kinds of lattice systems + direct calls")
@@ -74,6 +82,7 @@ def run(tier, out):
                                   "one direct call of a building block on a minute/second/millisecond lattice; distinct by "
                                   "seed resp. by arguments",
                           "models_built": len(built), "direct_calls": n_calls,
+                          "models_observed_after_in_place_list_edits": len([e for e in edited if e["seq"] > 0]),
                           "models_that_raised": sum(1 for e in events if e["ev"] == "Model" and e["raised"] != "none")})
         out.assumptions += ["system-level inputs lie on the lattice of EFNumeric (durations multiples of 15 min, data "
                             "amounts multiples of 6 kB); other durations are covered by the direct calls only",
